@@ -2,7 +2,7 @@
 use std::panic::{catch_unwind, AssertUnwindSafe};
 use vaporetto::{CharacterBoundary as B, CharacterType};
 use vaporetto_rules::{
-    sentence_filters::{ConcatGraphemeClustersFilter, KyteaWsConstFilter, SplitLinebreaksFilter},
+    sentence_filters::{ConcatGraphemeClustersFilter, KyteaWsConstFilter, PatternMatchTagger, SplitLinebreaksFilter},
     SentenceFilter,
 };
 
@@ -83,7 +83,93 @@ fn check(filter_id: usize, text: &str, labels: &[B]) -> Option<String> {
     }
 }
 
+// ---- pattern tagger: reference written from the statement ("fills only absent tags of tokens whose surface has a rule")
+// sentences: 't' = tokenized line, 'p' = partial-annotation line (gives unknown boundaries, i.e. stretches that are not tokens)
+const TAG_LINES: &[(char, &str)] = &[
+    ('t', "これ/名詞/ソレ は テスト/名詞 です//デス"), ('t', "これ は テスト です"), ('t', "これ/名詞 は/助詞 テスト/名詞 です/助動詞"),
+    ('t', "a//x b/y c//z d"), ('t', "これ///コレ は"), ('t', "x"), ('t', "は は/助詞 は//ワ は/助詞/ワ"),
+    ('p', "こ-れ/名詞|は|テ ス ト|で-す"), ('p', "こ-れ|は/助詞 テ-ス-ト|で-す//デス"), ('p', "a b-c/y|d"), ('p', "は|は/助詞|は"),
+    ('p', "こ-れ は|は"),
+];
+fn rule_tables() -> Vec<Vec<(&'static str, Vec<Option<&'static str>>)>> {
+    vec![
+        vec![],
+        vec![("これ", vec![Some("代名詞"), Some("コレ")]), ("は", vec![Some("助詞"), Some("ワ")]), ("テスト", vec![Some("名詞"), Some("テスト")]), ("です", vec![Some("助動詞"), Some("デス")])],
+        vec![("は", vec![Some("助詞")]), ("これ", vec![None, Some("コレ")]), ("d", vec![]), ("a", vec![Some("A"), Some("B"), Some("C"), Some("D")])],
+        vec![("は", vec![None, None, Some("三")]), ("bc", vec![Some("BC")]), ("x", vec![Some("X")]), ("これは", vec![Some("誤")]), ("テ", vec![Some("誤")])],
+    ]
+}
+fn tagger_sentence(kind: char, line: &'static str) -> Option<vaporetto::Sentence<'static, 'static>> {
+    if kind == 't' { vaporetto::Sentence::from_tokenized(line).ok() } else { vaporetto::Sentence::from_partial_annotation(line).ok() }
+}
+fn check_tagger(line_id: usize, table_id: usize) -> Option<String> {
+    let arg = format!("8\t{}\t{}", line_id, table_id);
+    let r = catch_unwind(AssertUnwindSafe(|| -> Option<String> {
+        let (kind, line) = TAG_LINES[line_id];
+        let table = &rule_tables()[table_id];
+        let mut s = match tagger_sentence(kind, line) { Some(s) => s, None => return Some("test sentence rejected by the parser".into()) };
+        let mut rules = hashbrown::HashMap::new();
+        for (k, row) in table {
+            rules.insert(k.to_string(), row.iter().map(|t| t.map(|t| t.to_string())).collect::<Vec<Option<String>>>());
+        }
+        let text = s.as_raw_text().to_string();
+        let chars: Vec<char> = text.chars().collect();
+        let types = s.char_types().to_vec();
+        let bounds = s.boundaries().to_vec();
+        let n = s.n_tags();
+        let before: Vec<Option<String>> = s.tags().iter().map(|t| t.as_ref().map(|t| t.to_string())).collect();
+        // expected: walk the maximal word-boundary-delimited segments; a segment without unknown boundary is a token
+        let mut want = before.clone();
+        let mut start = 0;
+        for e in 1..=chars.len() {
+            if e == chars.len() || bounds[e - 1] == B::WordBoundary {
+                let is_token = (start..e - 1).all(|k| bounds[k] != B::Unknown);
+                let surface: String = chars[start..e].iter().collect();
+                if is_token {
+                    if let Some(row) = table.iter().find(|(k, _)| *k == surface).map(|(_, r)| r) {
+                        for j in 0..n {
+                            if before[(e - 1) * n + j].is_none() {
+                                want[(e - 1) * n + j] = row.get(j).and_then(|t| t.map(|t| t.to_string()));
+                            }
+                        }
+                    }
+                }
+                start = e;
+            }
+        }
+        let filter = PatternMatchTagger::new(rules);
+        filter.filter(&mut s);
+        if s.as_raw_text() != text || s.char_types() != &types[..] || s.boundaries() != &bounds[..] || s.n_tags() != n {
+            return Some("text / character types / boundaries / tag width changed".into());
+        }
+        let after: Vec<Option<String>> = s.tags().iter().map(|t| t.as_ref().map(|t| t.to_string())).collect();
+        if after.len() != want.len() { return Some("tag table length changed".into()); }
+        for k in 0..want.len() {
+            if after[k] != want[k] {
+                return Some(format!("tag slot {} (character {}, slot {}): expected {:?}, actual {:?}", k, k / n, k % n, want[k], after[k]));
+            }
+        }
+        filter.filter(&mut s);
+        let again: Vec<Option<String>> = s.tags().iter().map(|t| t.as_ref().map(|t| t.to_string())).collect();
+        if again != after { return Some("not idempotent".into()); }
+        None
+    }));
+    match r {
+        Ok(None) => None,
+        Ok(Some(w)) => Some(desc(&arg, &w)),
+        Err(_) => Some(desc(&arg, "panic")),
+    }
+}
+
 pub fn search() -> Option<String> {
+    for line_id in 0..TAG_LINES.len() {
+        for table_id in 0..rule_tables().len() {
+            crate::mark(&format!("8\t{}\t{}", line_id, table_id));
+            if let Some(d) = check_tagger(line_id, table_id) {
+                return Some(d);
+            }
+        }
+    }
     for text in TEXTS {
         let n = text.chars().count();
         let k = n - 1;
@@ -104,5 +190,6 @@ pub fn search() -> Option<String> {
 
 pub fn replay(arg: &str) -> Option<String> {
     let p: Vec<&str> = arg.split('\t').collect();
+    if p[0] == "8" { return check_tagger(p[1].parse().ok()?, p[2].parse().ok()?); }
     check(p[0].parse().ok()?, p[1], &crate::labels_from_str(p[2]))
 }
